@@ -131,14 +131,15 @@ FIX_COMMITS = [
     '7cf49d9 fix: pair archive entries with the header file entry they name',
     '797fe0d fix: pad file data in the large-file (stripped cpio) branch of the builder',
     '290c9e0 fix: emit the packager and group given to the builder',
+    'ea8105c fix: emit the verify scriptlet given to the builder and add its accessor',
 ]
 
 PROPS['C06'] = dict(
     level='proof', verus=['c06_blocks', 'c05_accessors', 'c09_from_entries'],
     trusted_base=[A_TOOLS, A_EXTRACT, 'BLOCK contracts on verbatim statement ranges of PackageBuilder::prepare_data (the function as a whole is not verified); the transport between the emitted records and the accessors is covered by other checks: from_entries keeps every record (unit c09_from_entries), write/parse reproduce and decode it (C01/C05), typed getters find it (K:k_getters_*)'],
-    assumptions=['claimed for SCALAR metadata only: name, epoch, version, release, arch, licence, summary, description, group, vendor, packager, URL, VCS, cookie - each is emitted under its rpm tag with its type (blocks b6, b7) and the accessor of that name reads exactly that tag and type (unit c05_accessors). NOT covered: build host block, scriptlets (the verify script is never emitted: outside reach, DESIGN section 6), dependencies, changelog, per-file data, uniqueness of the emitted tags across blocks, the builder setters themselves',
+    assumptions=['claimed for SCALAR metadata and SCRIPTLETS only: name, epoch, version, release, arch, licence, summary, description, group, vendor, packager, URL, VCS, cookie - each is emitted under its rpm tag with its type (blocks b6, b7) and the accessor of that name reads exactly that tag and type (unit c05_accessors); each of the nine scriptlet kinds is emitted by Scriptlet::apply (function contract) under the script / flags / interpreter tags of THAT kind (blocks b9_*, composed by lemma_scriptlet_chain). NOT covered: build host block, get_scriptlet (read-back of scriptlets), dependencies, changelog, per-file data, uniqueness of the emitted tags across blocks, the builder setters themselves',
                  'R12: `opt.unwrap_or_else(|| s.clone())` is rewritten to a helper with the same value'],
-    explanation='For every builder state: the record list assembled by prepare_data contains RPMTAG_NAME/VERSION/RELEASE/LICENSE/ARCH as strings, EPOCH as int32, SUMMARY/DESCRIPTION/GROUP as single-locale i18n strings (description defaulting to the summary), and VENDOR/PACKAGER/URL/VCS/COOKIE whenever set, each with exactly the value given; and get_name ... get_cookie read exactly those tags with those types.',
+    explanation='For every builder state: the record list assembled by prepare_data contains RPMTAG_NAME/VERSION/RELEASE/LICENSE/ARCH as strings, EPOCH as int32, SUMMARY/DESCRIPTION/GROUP as single-locale i18n strings (description defaulting to the summary), and VENDOR/PACKAGER/URL/VCS/COOKIE whenever set, each with exactly the value given; every scriptlet given (pre/post install, uninstall, trans, untrans and verify) appears with its body as a string, its flags as int32 and its interpreter as a string array under the three tags of its kind, earlier records untouched; and get_name ... get_cookie read exactly those tags with those types.',
     technique='contract-based deductive verification (Verus): block contracts on verbatim statement ranges + function contracts on the accessors',
 )
 PROPS['C11'] = dict(
